@@ -382,7 +382,7 @@ func (u *Universe) zeroOf(t types.Type) Term {
 		return Term{"iface_nil", "Iface"}
 	case *types.Array:
 		s := u.sortOf(t)
-		return Term{fmt.Sprintf("((as const %s) %s)", s, u.zeroOf(tt.Elem()).S), s}
+		return Term{fmt.Sprintf("((as const %s) %s)", s, literalize(u.zeroOf(tt.Elem()).S)), s}
 	case *types.Struct:
 		si := u.structOf(t)
 		if len(si.fields) == 0 {
@@ -486,4 +486,10 @@ func sortedKeys[V any](m map[string]V) []string {
 	}
 	sort.Strings(ks)
 	return ks
+}
+
+// literalize expands the defined zero-value names so that the term is a syntactic value (cvc5 requires this inside `as const`).
+func literalize(s string) string {
+	r := strings.NewReplacer("slice_nil", "(mk_slice 0 0 0 0)", "iface_nil", "(mk_iface 0 0)", "time_zero_ns", "(- 62135596800000000000)", "time_zero", "(mk_time (- 62135596800000000000) 0)")
+	return r.Replace(s)
 }
